@@ -112,6 +112,9 @@ def main(tier):
             if pr[0].startswith("fold:") and findings.output_signature(pr[1], [x for x in probs if x]) and "dead_arm_operand" in run.findings:
                 run.known("dead_arm_operand", {"source": pr[1], "layout": lay, "problems": probs[:2]})
                 continue
+            if findings.valueless_signature(pr[1], [x for x in probs if x]) and "valueless_expression_statement" in run.findings:
+                run.known("valueless_expression_statement", {"source": pr[1], "layout": lay, "problems": probs[:2]})
+                continue
             if pr[0].startswith("fold:") or (lay == "ec" and not any(l == "rs" for l, _ in r["problems"])):
                 run.violation(f"{pr[0]}: the EXEC_CLASSES text is not well-formed/linear/well-sorted although the READ_STATEMENTS text is: {probs[0]}",
                               {"kind": "layout_illformed", "name": pr[0], "src": pr[1], "ec": pr[3], "problems": probs}, key="illformed:" + pr[5])
